@@ -24,6 +24,7 @@ CONSTANTS NF,          \* number of fragment definitions (names F, G, H)
           NT,          \* spread targets are the names 1..NT of <<F, G, H, Z>>; those > NF are undefined
           PayIds,      \* payload ids a section may carry (0 = none is always allowed)
           FragTypes,   \* type conditions of the fragments
+          Shape,       \* "flat": the operation is one section; "nested": three sections below fields `o`
           Fam
 
 VARIABLES fr,    \* the fragments chosen so far: <<[on, pay, sp]>>
@@ -50,6 +51,12 @@ Payload(p, b) ==
     [] p = 6 -> << Fld(b + 1, "x", "o", <<>>, << Fld(b + 2, "y", "x", <<>>, <<>>) >>) >>
     [] p = 7 -> << Fld(b + 1, "x", "s", <<>>, <<>>) >>
     [] p = 8 -> << Fld(b + 1, "", "a", <<>>, <<>>) >>
+    \* payloads for sections whose parent type is O
+    [] p = 11 -> << Fld(b + 1, "", "y", <<>>, <<>>) >>
+    [] p = 12 -> << Fld(b + 1, "y", "x", <<>>, <<>>) >>
+    [] p = 13 -> << Fld(b + 1, "", "z", <<>>, << Fld(b + 2, "", "y", <<>>, <<>>) >>) >>
+    [] p = 14 -> << Fld(b + 1, "", "z", <<>>, << Fld(b + 2, "y", "x", <<>>, <<>>) >>) >>
+    [] p = 15 -> << Fld(b + 1, "y", "w", <<>>, <<>>) >>
 
 RECURSIVE SpreadsFrom(_,_,_)
 SpreadsFrom(sp, b, j) ==
@@ -65,8 +72,23 @@ FragsFrom(f, i) ==
   IF i > NF THEN <<>>
   ELSE << [name |-> Names[i], on |-> f[i].on, sel |-> Section(f[i], 10 * (i - 1))] >> \o FragsFrom(f, i + 1)
 
+\* "nested": the fragments are spread below three fields with response keys o, o, k, the first two
+\* under parent types that can never apply together (Q and M): the sub-selections of the two `o`
+\* are compared as mutually exclusive (shapes only), those of `k: o` on their own - steps H, I, J of
+\* the implementation and its memo of compared fragment pairs, both ways round
+\*   { ... on Q { o { <f[NF+1]> } }  ... on M { o { <f[NF+2]> } }  k: o { <o> } }
+Inl(id, on, sel) == [k |-> "inline", id |-> id, on |-> on, dirs |-> <<>>, sel |-> sel]
+NS == IF Shape = "nested" THEN NF + 2 ELSE NF      \* sections chosen before the last one
+OpSel(f, o) ==
+  IF Shape = "nested"
+  THEN << Inl(91, "Q", << Fld(92, "", "o", <<>>, Section(f[NF + 1], 40)) >>),
+          Inl(93, "M", << Fld(94, "", "o", <<>>, Section(f[NF + 2], 50)) >>),
+          Fld(95, "k", "o", <<>>, Section(o, 60)) >>
+  ELSE Section(o, 10 * NF)
+RootSp(f, o) == IF Shape = "nested" THEN f[NF + 1].sp \cup f[NF + 2].sp \cup o.sp ELSE o.sp
+
 DocOf(f, o) ==
-  [ops |-> << [kind |-> "query", name |-> "", vdefs |-> <<>>, sel |-> Section(o, 10 * NF)] >>,
+  [ops |-> << [kind |-> "query", name |-> "", vdefs |-> <<>>, sel |-> OpSel(f, o)] >>,
    frags |-> FragsFrom(f, 1)]
 
 \* ------------------------------------------- theorems about the oracle itself
@@ -80,10 +102,10 @@ ReachG(f, todo, seen) ==
 Theorems(f, o, j) ==
   LET v == j.v0
       onCycle(i) == i \in ReachG(f, f[i].sp \cap (1..NF), {})
-      used == ReachG(f, o.sp \cap (1..NF), {})
+      used == ReachG(f, RootSp(f, o) \cap (1..NF), {})
   IN /\ (v["NoFragmentCycles"] # {}) = (\E i \in 1..NF : onCycle(i))
      /\ v["NoUnusedFragments"] = { FKey(i) : i \in (1..NF) \ used }
-     /\ (v["KnownFragmentNames"] # {}) = (\E k \in (NF + 1)..NT : k \in o.sp \/ \E i \in 1..NF : k \in f[i].sp)
+     /\ (v["KnownFragmentNames"] # {}) = (\E k \in (NF + 1)..NT : k \in RootSp(f, o) \/ \E i \in 1..NF : k \in f[i].sp)
      \* a deviation only loses conflicts / only adds spread errors
      /\ j.dv["D_C02_overlap_step_E"] \subseteq v["OverlappingFieldsCanBeMerged"]
      /\ v["PossibleFragmentSpreads"] \subseteq j.dv["D_C02_untyped_inline_in_wrapped_field"]
@@ -103,9 +125,12 @@ Init == fr = <<>> /\ vec = <<>>
 \* in-model theorems held, which TheoremsHold checks.
 Next ==
   \/ /\ Len(fr) < NF
-     /\ \E c \in SecChoices(FragTypes, 1..NT) : fr' = Append(fr, c)
+     /\ \E c \in SecChoices(FragTypes, IF Shape = "nested" THEN {} ELSE 1..NT) : fr' = Append(fr, c)
      /\ UNCHANGED vec
-  \/ /\ Len(fr) = NF /\ vec = <<>>
+  \/ /\ NF <= Len(fr) /\ Len(fr) < NS
+     /\ \E c \in SecChoices({"O"}, 1..NT) : fr' = Append(fr, c)
+     /\ UNCHANGED vec
+  \/ /\ Len(fr) = NS /\ vec = <<>>
      /\ \E c \in SecChoices({"Q"}, 1..NT) :
           LET v == VectorOf(fr, c) IN
           /\ PrintT(<<"VEC", ToJson(v)>>)
